@@ -145,6 +145,17 @@ def build5(T, tree, pfx="L"):
         if (w1, w2) == ("I", "T") and R.dt.kind != 'c':
             cert = ref_T(T, R)
         return A1 @ A2, ref_matmul(T, R1, R2), cert
+    if k == "sandwich":
+        # w1(A) @ mid @ ... @ w2(A): the SAME object at both ends, arbitrary (non-PSD) factors in between  ["sandwich", w1, w2, sub, mid, ...]
+        _, w1, w2, sub = tree[:4]
+        A, R, _ = build5(T, sub, pfx + "g")
+        W = {"I": (A, R), "T": (A.T, ref_T(T, R)), "H": (A.H, ref_H(T, R))}
+        (A1, R1), (A2, R2) = W[w1], W[w2]
+        op, Rm = A1, R1
+        for i, mt in enumerate(tree[4:]):
+            Mo, MR, _ = build5(T, mt, f"{pfx}m{i}")
+            op, Rm = op @ Mo, ref_matmul(T, Rm, MR)
+        return op @ A2, ref_matmul(T, Rm, R2), None
     if k == "gram2":
         # A.H @ B with two *different* objects of the same shape (must not be reported PSD)
         A, RA, _ = build5(T, tree[1], pfx + "a")
@@ -205,6 +216,8 @@ def name5(t):
         return "bd(" + ",".join(f"{name5(x)}^{m}" for x, m in zip(t[1], t[2])) + ")"
     if k == "gram":
         return f"gram{t[1]}{t[2]}({name5(t[3])})"
+    if k == "sandwich":
+        return f"sandwich{t[1]}{t[2]}({name5(t[3])};" + ",".join(name5(x) for x in t[4:]) + ")"
     if k == "gram2":
         return f"A.H@B({name5(t[1])})"
     if k == "sliced":
@@ -351,6 +364,11 @@ def cases(tier, seed):
              ["gram", "I", "T", ["dense", 2, 3, C16]], ["gram", "T", "T", ["dense", 2, 2, F8]], ["gram", "H", "H", ["dense", 2, 2, C16]], ["gram", "T", "H", ["dense", 2, 2, C16]],
              ["gram", "H", "I", ["sum", ["dense", 2, 2, C16], ["dense", 2, 2, C16]]], ["gram", "H", "I", ["rot", 0]], ["gram", "H", "I", ["stiefel"]],
              ["gram2", ["sum", ["dense", 2, 2, C16], ["dense", 2, 2, C16]]], ["gram2", ["dense", 2, 2, F8]],
+             # three and more factors with the same object at both ends: A^H B A is not PSD for an arbitrary B
+             ["sandwich", "H", "I", ["sum", ["dense", 2, 2, C16], ["dense", 2, 2, C16]], ["dense", 2, 2, C16]],
+             ["sandwich", "T", "I", ["sum", ["dense", 2, 2, F8], ["dense", 2, 2, F8]], ["dense", 2, 2, F8]],
+             ["sandwich", "I", "T", ["sum", ["dense", 2, 2, F8], ["dense", 2, 2, F8]], ["dense", 2, 2, F8], ["dense", 2, 2, F8]],
+             ["sandwich", "I", "H", ["sum", ["dense", 2, 3, C16], ["dense", 2, 3, C16]], ["dense", 3, 3, C16]],
              # lazily transposed complex operands (the transpose of a Sum / Diagonal / Tridiagonal stays a Transpose object)
              ["gram", "T", "I", ["sum", ["dense", 2, 2, C16], ["dense", 2, 2, C16]]], ["gram", "I", "T", ["sum", ["dense", 2, 2, C16], ["dense", 2, 2, C16]]],
              ["gram", "T", "I", ["sum", ["dense", 3, 2, C16], ["dense", 3, 2, F8]]], ["gram", "T", "I", ["sum", ["dense", 2, 2, F8], ["dense", 2, 2, F8]]],
